@@ -34,10 +34,19 @@ def run(chk):
     model = core.Model() if b.modelrun_ok else None
     full = chk.tier == 'thorough' or bool(b.drift) or not b.proof_ok
     cells = corpus.all_grammar() + corpus.FREE_TEXT + corpus.random_strings(chk.rng, 1500 if full else 150)
+    # damaged tokens: every proper prefix and every single-character deletion of the grammar's alternatives (a truncated
+    # bounding box, a clef without its line ...) - the recogniser recovers from such cells in ways of its own
+    gram = corpus.all_grammar()
+    damaged = []
+    for i, t in enumerate(gram):
+        if full or i % 3 == chk.seed % 3 or t.startswith('*xywh'):
+            damaged += [t[:k] for k in range(1, len(t))] + [t[:k] + t[k + 1:] for k in range(len(t))]
+    cells += damaged
     cells = list(dict.fromkeys(c for c in cells if c != '' and '\t' not in c and '\n' not in c))
     headers = HEADERS + (['**' + ''.join(chk.rng.choice('abcxyz') for _ in range(4)) for _ in range(3)] if full else [])
     chk.rule = ('headers (6 supported non-kern types + unknown ones) x cells: every alternative of the token grammar, '
-                'free text, random character strings; non-trivial = distinct (header, cell)')
+                'free text, damaged tokens (every proper prefix and single-character deletion of the grammar alternatives; a '
+                'third of them in the quick tier), random character strings; non-trivial = distinct (header, cell)')
     # kern outcome of every cell
     kern = {}
     for s in cells:
